@@ -357,8 +357,10 @@ func (vm *VolumeManager) writeSector(root types.Hash256, data *[proto4.SectorSiz
 		}
 		vm.log.Debug("wrote sector", zap.String("root", root.String()), zap.Int64("volume", loc.Volume), zap.Uint64("index", loc.Index), zap.Duration("elapsed", time.Since(start)))
 
-		// Add newly written sector to cache
-		vm.cache.Add(root, data)
+		// Add a copy of the newly written sector to the cache: the caller
+		// keeps its buffer and may modify it
+		cached := *data
+		vm.cache.Add(root, &cached)
 
 		// mark the volume as changed
 		vm.mu.Lock()
@@ -842,8 +844,10 @@ func (vm *VolumeManager) readLocation(loc SectorLocation) (*[proto2.SectorSize]b
 		return nil, fmt.Errorf("failed to read sector data: %w", err)
 	}
 
-	// Add sector to cache
-	vm.cache.Add(loc.Root, sector)
+	// Add a copy of the sector to the cache: the caller may modify the
+	// returned buffer
+	cached := *sector
+	vm.cache.Add(loc.Root, &cached)
 	vm.recorder.AddCacheMiss()
 	atomic.AddUint64(&vm.cacheMisses, 1)
 	return sector, nil
@@ -861,7 +865,9 @@ func (vm *VolumeManager) ReadSector(root types.Hash256) (*[proto2.SectorSize]byt
 	if sector, ok := vm.cache.Get(root); ok {
 		vm.recorder.AddCacheHit()
 		atomic.AddUint64(&vm.cacheHits, 1)
-		return sector, nil
+		// return a copy: callers patch the returned buffer in place
+		out := *sector
+		return &out, nil
 	}
 
 	// Cache miss, read from disk
